@@ -45,6 +45,13 @@ def scenario(big: bool = False) -> Any:
                 m["_value_eq"] = True       # distinct middlewares that compare equal (value semantics)
         d["fail_saves"] = sorted(d["fail_saves"])
         d["fail_kicks"] = sorted(k for k in d["fail_kicks"] if k < len(d["msgs"]))
+        cs = d.pop("clock_step")
+        if cs:
+            # the host's wall clock is stepped (NTP correction, VM resume) while an async task runs: hooks fire as ever
+            for m in d["msgs"]:
+                if m["kind"] == "async":
+                    m["clock_step"] = cs
+                    break
         return d
 
     msg = cm.message(kinds=("async", "async", "sync"), outs=("ret", "ret", "ValueError", "MyBase", "NoResult", "KeyboardInterrupt", "EmptyBatchError", "BadStrError", "CancelledError"),
@@ -62,6 +69,7 @@ def scenario(big: bool = False) -> Any:
         "dup_mw": st.one_of(st.none(), st.none(), st.integers(0, 2)),
         "register_one_by_one": st.booleans(),
         "value_eq": st.sampled_from([False, False, True]),
+        "clock_step": st.sampled_from([0, 0, 0, -5.0, 3600.0, -0.5]),
         "ack_type": st.sampled_from(["when_received", "when_executed", "when_saved"]),
     }).map(fin)
 
@@ -78,6 +86,12 @@ def run_case(sc: Dict[str, Any]) -> Outcome:
     specs = sc["msgs"]
     mws = sc["mws"]
     loop = VirtualTimeLoop()
+    import taskiq.receiver.receiver as _rr
+
+    wh.WALL["offset"] = 0.0
+    _orig_time = getattr(_rr, "time", None)
+    if _orig_time is not None:
+        _rr.time = lambda: 1.7e9 + loop.time() + wh.WALL["offset"]  # type: ignore[attr-defined]  # the wall clock: virtual time plus generated steps
     loop.max_iterations = 200_000
     asyncio.set_event_loop(loop)
     tr = wh.Trace(loop)
@@ -169,6 +183,8 @@ def run_case(sc: Dict[str, Any]) -> Outcome:
                     pass
         finally:
             loop.close()
+            if _orig_time is not None:
+                _rr.time = _orig_time  # type: ignore[attr-defined]
             asyncio.set_event_loop(None)
     if res["exc"] or not res["returned"]:
         out.add("C10.b", f"listen() did not finish normally: {res['exc']} returned={res['returned']}")
